@@ -308,6 +308,8 @@ static void run_cell(seqx::Runner &R, int start, int comp, int depth) {
         } else if (f) {
             if (!start_ret) R.fail("async/start-returned-false", "start(promise) with a fresh promise reported failure");
             Obs o = observe(*f);
+            Obs again = observe(*f);  // the delivered result stays what it is, however often the bound party looks
+            if (again.kind != o.kind || again.val != o.val) R.fail("async/result-changed", "second read of the bound future gave kind=%d val=%ld after kind=%d val=%ld", again.kind, again.val, o.kind, o.val);
             if (o.kind != expect_kind || o.val != expect_val)
                 R.fail("async/wrong-delivery", "bound future holds kind=%d val=%ld, expected kind=%d val=%ld", o.kind, o.val, expect_kind, expect_val);
         } else if (have_party) {
